@@ -40,6 +40,9 @@ def main(argv):
             path = argv[argv.index("--replay") + 1]
             data = json.load(open(path))
             return mod.replay(ctx, data)
+        if tier == "thorough" and not os.environ.get("COHDL_VERIF_ONLY"):
+            lean_io.leanchecker(prop)
+            ctx.obligation(f"leanchecker re-check of CohdlVerif.Props.{prop} and its imports", True, kind="kernel-recheck")
         mod.run(ctx)
         code = ctx.finish(lean_io.theorems_for(prop, axioms))
         n_ob = len(ctx.obligations)
